@@ -92,6 +92,34 @@ func spec_shaped(rs FuncResults, n int) bool {
 //@   preserves pkg/types.funcResultsResolver. pkg/types.pkgInfo. golang.org/x/tools/go/packages. $syncmap:
 //@   note ASSUMED frame of the per-slot resolver (not verified: go/ast traversal through ast.Inspect callbacks): it never stores into a funcResultsResolver
 
+// spec_slots(fs, k): the number of result SLOTS the first k fields of a result list declare (a field with names
+// declares one slot per name - blank names included -, a field without names one slot).
+func spec_slots(fs []*ast.Field, k int) int {
+	if k <= 0 {
+		return 0
+	}
+	if len(fs[k-1].Names) > 0 {
+		return spec_slots(fs, k-1) + len(fs[k-1].Names)
+	}
+	return spec_slots(fs, k-1) + 1
+}
+
+//@ func funcResultsResolver.namedResultObjectAt
+//@   props C14
+//@   pure
+//@   requires r != nil && r.pkgInfo != nil && r.Package != nil && r.Package.TypesInfo != nil && funcType != nil && funcType.Results != nil
+//@   assume forall i int :: 0 <= i && i < len(funcType.Results.List) ==> funcType.Results.List[i] != nil
+//@   assume forall i int, j int :: 0 <= i && i < len(funcType.Results.List) && 0 <= j && j < len(funcType.Results.List[i].Names) ==> funcType.Results.List[i].Names[j] != nil
+//@   note (assume) go/ast: the fields of a result list and their names are non-nil
+//@   ensures forall i int, j int :: 0 <= i && i < len(funcType.Results.List) && 0 <= j && j < len(funcType.Results.List[i].Names) && spec_slots(funcType.Results.List, i)+j == at && (forall i2 int, j2 int :: 0 <= i2 && i2 < len(funcType.Results.List) && 0 <= j2 && j2 < len(funcType.Results.List[i2].Names) && (i2 < i || (i2 == i && j2 < j)) ==> spec_slots(funcType.Results.List, i2)+j2 != at) ==> result == r.Package.TypesInfo.ObjectOf(funcType.Results.List[i].Names[j])
+//@   ensures (forall i int, j int :: 0 <= i && i < len(funcType.Results.List) && 0 <= j && j < len(funcType.Results.List[i].Names) ==> spec_slots(funcType.Results.List, i)+j != at) ==> result == nil
+//@   loop 1 invariant retAt == spec_slots(funcType.Results.List, it1)
+//@   loop 1 invariant forall i int, j int :: 0 <= i && i < it1 && 0 <= j && j < len(funcType.Results.List[i].Names) ==> spec_slots(funcType.Results.List, i)+j != at
+//@   loop 2 invariant retAt == spec_slots(funcType.Results.List, it1)+it2
+//@   loop 2 invariant forall j int :: 0 <= j && j < it2 ==> spec_slots(funcType.Results.List, it1)+j != at
+//@   loop 1 hint spec_slots(funcType.Results.List, it1+1)
+//@   note the object of the result slot `at`: slots are counted over EVERY declared name, blank ones included (a bare return assigns the variables in declaration order; skipping `_` would attribute each later variable to the slot before its own - C14: every alternative is assignable to the declared type of ITS result)
+
 //@ func StringifyNode
 //@   trusted
 //@   pure
@@ -216,6 +244,11 @@ func spec_scopeFunc(pkg *packages.Package, n string) *types.Func {
 	return f
 }
 
+// spec_declComment(c): c is the trailing comment (the Comment field) of a ValueSpec, ImportSpec, TypeSpec or Field.
+func spec_declComment(c *ast.CommentGroup) bool { panic("uninterpreted") }
+
+func spec_asCommentGroup(n ast.Node) *ast.CommentGroup { g, _ := n.(*ast.CommentGroup); return g }
+
 func spec_pkgInfoOf(p Package) *pkgInfo { pi, _ := p.(*pkgInfo); return pi }
 
 //@ func newPkg
@@ -238,6 +271,28 @@ func spec_pkgInfoOf(p Package) *pkgInfo { pi, _ := p.(*pkgInfo); return pi }
 //@   ensures spec_methodsOK(spec_pkgInfoOf(result)) && spec_importsOK(spec_pkgInfoOf(result))
 //@   ensures spec_pkgInfoOf(result).imports != nil && len(spec_pkgInfoOf(result).imports) == 0
 //@   note a new package starts with an EMPTY import table (its dependencies are not registered yet) and constructing it touches no other package's table (C13: nothing is resolved before registration is complete)
+//@   lit 3 invariant p != nil && p.Package != nil && p.Package.Fset != nil && p.Package.TypesInfo != nil && p.endLineToCommentGroup != nil && p.endLineToTrailingCommentGroup != nil && trailing != nil && p.signatures != nil && p.funcDecls != nil
+//@   lit 3 invariant forall fl fileLine :: has(p.endLineToCommentGroup, fl) && p.endLineToCommentGroup[fl] != nil ==> !spec_declComment(p.endLineToCommentGroup[fl])
+//@   lit 3 invariant forall fl fileLine :: has(p.endLineToTrailingCommentGroup, fl) && p.endLineToTrailingCommentGroup[fl] != nil ==> spec_declComment(p.endLineToTrailingCommentGroup[fl])
+//@   lit 3 invariant forall fl fileLine :: has(p.endLineToCommentGroup, fl) && p.endLineToCommentGroup[fl] != nil ==> fl.file == p.Package.Fset.Position(p.endLineToCommentGroup[fl].End()).Filename && fl.line == p.Package.Fset.Position(p.endLineToCommentGroup[fl].End()).Line
+//@   loop 2 invariant p != nil && p.Package != nil && p.Package.Fset != nil && p.Package.TypesInfo != nil && p.endLineToCommentGroup != nil && p.endLineToTrailingCommentGroup != nil && trailing != nil && p.signatures != nil && p.funcDecls != nil
+//@   loop 2 invariant forall fl fileLine :: has(p.endLineToCommentGroup, fl) && p.endLineToCommentGroup[fl] != nil ==> !spec_declComment(p.endLineToCommentGroup[fl])
+//@   loop 2 invariant forall fl fileLine :: has(p.endLineToTrailingCommentGroup, fl) && p.endLineToTrailingCommentGroup[fl] != nil ==> spec_declComment(p.endLineToTrailingCommentGroup[fl])
+//@   loop 2 invariant forall fl fileLine :: has(p.endLineToCommentGroup, fl) && p.endLineToCommentGroup[fl] != nil ==> fl.file == p.Package.Fset.Position(p.endLineToCommentGroup[fl].End()).Filename && fl.line == p.Package.Fset.Position(p.endLineToCommentGroup[fl].End()).Line
+//@   loop 3 invariant p != nil && p.funcDecls != nil && p.Package != nil && p.Package.TypesInfo != nil
+//@   lit 3 assume spec_asCommentGroup(node) != nil && spec_declComment(spec_asCommentGroup(node)) ==> trailing[spec_asCommentGroup(node)]
+//@   lit 3 assume forall v *ast.ValueSpec :: v != nil ==> (v.Doc == nil || !spec_declComment(v.Doc)) && (v.Comment == nil || spec_declComment(v.Comment))
+//@   lit 3 assume forall v *ast.ImportSpec :: v != nil ==> (v.Doc == nil || !spec_declComment(v.Doc)) && (v.Comment == nil || spec_declComment(v.Comment))
+//@   lit 3 assume forall v *ast.TypeSpec :: v != nil ==> (v.Doc == nil || !spec_declComment(v.Doc)) && (v.Comment == nil || spec_declComment(v.Comment))
+//@   lit 3 assume forall v *ast.Field :: v != nil ==> (v.Doc == nil || !spec_declComment(v.Doc)) && (v.Comment == nil || spec_declComment(v.Comment))
+//@   lit 3 assume forall v *ast.ValueSpec :: v != nil && v.Doc != nil ==> v.Doc.Pos() != v.Pos() && p.Package.Fset.Position(v.Doc.End()).Filename == p.Package.Fset.Position(v.Pos()).Filename && p.Package.Fset.Position(v.Doc.End()).Line == p.Package.Fset.Position(v.Pos()).Line-1
+//@   lit 3 assume forall v *ast.ImportSpec :: v != nil && v.Doc != nil ==> v.Doc.Pos() != v.Pos() && p.Package.Fset.Position(v.Doc.End()).Filename == p.Package.Fset.Position(v.Pos()).Filename && p.Package.Fset.Position(v.Doc.End()).Line == p.Package.Fset.Position(v.Pos()).Line-1
+//@   lit 3 assume forall v *ast.TypeSpec :: v != nil && v.Doc != nil ==> v.Doc.Pos() != v.Pos() && p.Package.Fset.Position(v.Doc.End()).Filename == p.Package.Fset.Position(v.Pos()).Filename && p.Package.Fset.Position(v.Doc.End()).Line == p.Package.Fset.Position(v.Pos()).Line-1
+//@   lit 3 assume forall v *ast.Field :: v != nil && v.Doc != nil ==> v.Doc.Pos() != v.Pos() && p.Package.Fset.Position(v.Doc.End()).Filename == p.Package.Fset.Position(v.Pos()).Filename && p.Package.Fset.Position(v.Doc.End()).Line == p.Package.Fset.Position(v.Pos()).Line-1
+//@   note (lit 3 assume 1) go/ast.Inspect visits a declaration BEFORE its children: when the walk reaches a comment group that is the trailing comment (the Comment field) of a ValueSpec / ImportSpec / TypeSpec / Field, that declaration's case has already run and has marked the group in `trailing`. (lit 3 assume 2-5) definition of the ghost predicate spec_declComment: the Comment field of such a declaration is a trailing comment, its Doc field is not. (lit 3 assume 6-9, Doc position) go/parser: the Doc group of a declaration is the comment group that ENDS ON THE LINE DIRECTLY ABOVE the declaration, in the same file (parser.leadComment)
+//@   ensures forall fl fileLine :: has(spec_pkgInfoOf(result).endLineToCommentGroup, fl) && spec_pkgInfoOf(result).endLineToCommentGroup[fl] != nil ==> !spec_declComment(spec_pkgInfoOf(result).endLineToCommentGroup[fl])
+//@   ensures forall fl fileLine :: has(spec_pkgInfoOf(result).endLineToCommentGroup, fl) && spec_pkgInfoOf(result).endLineToCommentGroup[fl] != nil ==> fl.file == spec_pkgInfoOf(result).Package.Fset.Position(spec_pkgInfoOf(result).endLineToCommentGroup[fl].End()).Filename && fl.line == spec_pkgInfoOf(result).Package.Fset.Position(spec_pkgInfoOf(result).endLineToCommentGroup[fl].End()).Line
+//@   note (C12) callback invariant of the comment walk (`lit 3 invariant`: holds before the walk, re-established by every run of the callback, hence after the walk - for any tree): NO trailing comment of a declaration ever enters the leading index (the table Doc looks up at line-1) - "a trailing comment belonging to the previous line is never reported as the next declaration's documentation"; the trailing index holds trailing comments only; every group in the leading index is filed under the line on which it ENDS (Fset.Position(group.End())), so Doc(pos), which looks up line(pos)-1, returns exactly the group that ends on the line directly above - also for block comments spanning several lines
 //@   loop 1 invariant p != nil && p.Package == pkg && p.u == u && p.types != nil && p.constants != nil && p.funcs != nil && p.methods != nil
 //@   loop 1 invariant forall n string :: has(p.types, n) ==> p.types[n] != nil && p.types[n] == spec_scopeType(pkg, n)
 //@   loop 1 invariant forall n string :: has(p.constants, n) ==> p.constants[n] != nil && p.constants[n] == spec_scopeConst(pkg, n)
@@ -550,9 +605,12 @@ func spec_loadInv(u *Universe, local map[string]bool, direct map[string]bool, ro
 //@   note whichever order the package table is visited in, a package is returned only if ITS source directory is the directory of the file containing pos (never a package matched by name or by a path suffix)
 
 //@ func TypeRef.Walk
-//@   trusted
+//@   props C15 C03
 //@   iterator
-//@   note ASSUMED (by reading): Walk performs no store of its own, it only hands r and then, recursively, the nodes of r.TypeList to the callback
+//@   requires r != nil && walk != nil
+//@   loop 1 assume forall i int :: 0 <= i && i < len(xs1) ==> xs1[i] != nil
+//@   note (loop 1 assume) the argument lists of a type reference hold non-nil nodes (ParseTypeRef builds them so; a callback that stores nil into the list it is walking is outside the domain)
+//@   note `iterator` (what callers use): Walk performs no store of its own, it only hands r and then, recursively, the nodes of r.TypeList to the callback. The body is verified for safety - in particular the slice-aliasing guard: Walk never rearranges r.TypeList (or a reslice of it) in place
 
 //@ func TypeRef.String
 //@   props C15
@@ -581,7 +639,7 @@ func spec_depth(s string, i int) int {
 }
 
 //@ func ParseTypeRef
-//@   props C15
+//@   props C15 C03 C05
 //@   decreases len(s)
 //@   assigns nothing
 //@   ensures (result1 == nil) == (result0 != nil)
